@@ -41,6 +41,12 @@ def plan(tier):
         for outs in (('fail', 'ok'), ('ok', 'ok'), ('raise', 'fail')):
             for wrk in (1, 2):
                 out.append((C.cfg(2, one, outs, wrk, second=two), (1 if wrk == 1 else 0) if tier == 'quick' else (2 if wrk == 1 else 1)))
+    # ... and the same graph OBJECTS handed to a second Scheduler (scheduling again with another worker count): building a
+    # scheduler must leave the caller's graphs as they were
+    for edges, outs in ((C.CHAIN2S, ('fail', 'ok')), (C.CHAIN2S, ('raise', 'ok')), (C.JOIN3HS, ('ok', 'fail', 'ok')), (C.TRI3, ('fail', 'ok', 'ok')),
+                        (C.CHAIN3SH, ('fail', 'ok', 'ok'))):
+        out.append((C.cfg(len(outs), edges, outs, 2, second='same'), 0 if tier == 'quick' else 1))
+        out.append((C.cfg(len(outs), edges, outs, 1, second='same'), 1))
     pairs3 = [([], C.JOIN3HS), (C.CHAIN3, C.FORK3HS), (C.JOIN3SS, C.TRI3), (C.TRI3, [])]
     for one, two in pairs3:
         for outs in (('fail', 'ok', 'ok'), ('ok', 'fail', 'ok')) + ((('ok', 'ok', 'ok'), ('raise', 'raise', 'ok')) if tier == 'thorough' else ()):
